@@ -4,6 +4,7 @@
 // Independent oracles: refdns (strict name legality), ref::match_datalen, ref::codec_decode.
 #include "sim/harness.h"
 #include "tunnel_common.h"
+#include "client_common.h"
 #include "glue/unit_api.h"
 #include "ref/refmisc.h"
 #include "ref/refdns.h"
@@ -195,12 +196,75 @@ static CaseResult system_case(Tape &t)
 	tun::run_tunnel(t, tun::CLEAN, R);
 	r.render = "system: " + R.render.substr(0, 500) + scn::fmt(" | client queries %llu, names >= 200 chars %llu", (unsigned long long)R.wm.n_cli_dns, (unsigned long long)R.wm.n_long_q);
 	if (R.v.failed("C08")) r.fail(R.v.first["C08"].sig, R.v.first["C08"].why + "\n" + r.render);
+	// "the server's extraction of the data part of that name yields exactly that prefix": on a clean path every packet the client read
+	// and sent must come out of the real server's reassembly (sizes include last fragments of exactly 1 and 2 bytes)
+	if (r.ok && R.v.failed("C02") && R.v.first["C02"].sig == "C02:lost-upstream") r.fail("C08:system-extraction-fails", R.v.first["C02"].why + "\n" + r.render);
 	r.nontrivial = R.up && R.cfg.maxlen != 0;
-	r.cls("system"); if (R.cfg.maxlen) r.cls("system:-M-set"); if (R.cfg.frag < 0) r.cls("system:fragsize-autoprobe");
+	r.cls("system"); if (R.cfg.maxlen) r.cls("system:-M-set"); if (R.cfg.frag < 0) r.cls("system:fragsize-autoprobe"); if (R.n_boundary) r.cls("system:last-fragment-of-1-2-F-1-or-F-bytes");
 	return r;
 }
 
-static CaseResult run_case(Tape &t) { return t.pick({40, 1}) == 0 ? unit_case(t) : system_case(t); }
+// client case: the REAL client against a scripted, otherwise honest server that REFUSES the upstream codec switch (an older server
+// without Base128 / Base64u answers BADCODEC; BADIP and BADLEN are the other refusals the client knows) or accepts it.  Whatever
+// the client then puts into its data-chunk names has to be extractable by the server with the codec in force for the session:
+// every packet the client read from its tun device and sent completely must come out of the server's reassembly unchanged.
+static CaseResult client_case(Tape &t)
+{
+	CaseResult r;
+	scn::Config c;
+	static const int QT[] = {1, 3, 2, 4, 6};
+	c.qtype = QT[t.pick({4, 3, 1, 1, 1})];
+	c.lazy = t.chance(1, 2) ? 1 : 0;
+	c.frag = t.range(100, 300);
+	c.nclients = 1;
+	if (t.chance(1, 2)) c.maxlen = t.range(100, 255);
+	c.cli_seed = t.u32() | 1;
+	int refusal = (int)t.pick({2, 3, 1, 1});   // 0 accept, 1 BADCODEC, 2 BADIP, 3 BADLEN
+	scn::Session s(c);
+	mon::TunMonitor tm; tm.attach(sim::W);
+	cli::ScriptServer srv; srv.domain = c.domain; srv.password = Bytes(c.password.begin(), c.password.end());
+	srv.seed = t.u32(); srv.userid = (int)t.below(16);
+	int n_refused = 0, asked_codec = -1;
+	srv.policy = [&](cli::ScriptServer &S, const refproto::Query &q, const sim::Datagram &dg, int step) -> bool {
+		if (step != cli::S_S) return false;
+		std::string d = q.data;
+		asked_codec = d.size() >= 3 ? ref::b32_value((unsigned char)d[2]) : -1;
+		if (!refusal) return false;
+		static const char *R[] = {"", "BADCODEC", "BADIP", "BADLEN"};
+		S.answer(dg, q, Bytes(R[refusal], R[refusal] + strlen(R[refusal])), S.downenc);
+		n_refused++;
+		return true;
+	};
+	srv.attach();
+	s.start_client(0);
+	uint64_t end = sim::W.now + 150000000ull;
+	while (sim::W.now < end && !sim::W.livelock && s.cli[0]->state != sim::ST_EXITED && !s.client_up(0)) sim::W.run_for(200000);
+	r.render = "client vs scripted server: " + c.describe() + scn::fmt(" | codec switch asked=%d answer=%s", asked_codec, refusal == 0 ? "accepted" : (refusal == 1 ? "BADCODEC" : (refusal == 2 ? "BADIP" : "BADLEN")));
+	r.cls("client-vs-scripted-server");
+	if (sim::W.livelock) r.fail("C08:livelock", "simulation did not make progress");
+	if (!s.client_up(0)) { r.cls("handshake-failed"); return r; }
+	int noff = t.range(2, 6);
+	std::vector<Bytes> offered;
+	for (int i = 0; i < noff; i++) {
+		Bytes pkt = scn::gen_packet(t, Bytes{10, 0, 0, 1}, Bytes{10, 0, 0, 2}, (uint16_t)(700 + i), 600);
+		offered.push_back(pkt); sim::W.offer_tun(s.cli[0], pkt);
+		sim::W.run_for(1500000);
+	}
+	sim::W.run_for(6000000);
+	size_t n_read = tm.reads_of(s.cli[0]->idx).size();
+	r.render += scn::fmt(" | offered %d, read by the client %zu, reassembled by the server %zu, switch requests refused %d", noff, n_read, srv.up_received.size(), n_refused);
+	for (auto &p : srv.up_received) if (std::find(offered.begin(), offered.end(), p) == offered.end())
+		r.fail("C08:extraction-differs", "the server's extraction of the client's data chunks (codec in force for the session) yields a packet the client never read from its tun device\n" + r.render);
+	// a clean path: everything the client read must arrive (the last one may still be in flight only if the run ended early, which it did not)
+	if (r.ok && n_read >= 1 && srv.up_received.size() + 1 < n_read)
+		r.fail("C08:extraction-fails", scn::fmt("the client read %zu packets from its tun device and sent them, but the server could reassemble only %zu from the data-chunk names with the codec in force", n_read, srv.up_received.size()) + "\n" + r.render);
+	r.nontrivial = n_read >= 1 && asked_codec >= 0;
+	if (n_refused) r.cls(refusal == 1 ? "codec-switch-refused:BADCODEC" : (refusal == 2 ? "codec-switch-refused:BADIP" : "codec-switch-refused:BADLEN"));
+	else if (asked_codec >= 0) r.cls("codec-switch-accepted");
+	return r;
+}
+
+static CaseResult run_case(Tape &t) { int k = (int)t.pick({80, 2, 1}); return k == 0 ? unit_case(t) : (k == 1 ? system_case(t) : client_case(t)); }
 
 int main(int argc, char **argv)
 {
